@@ -262,9 +262,10 @@ convert(struct func *f, struct type *dst, struct type *src, struct value *l)
 	struct value *r = NULL;
 	int class;
 
-	if (src->kind == TYPEPOINTER)
+	/* pointers and nullptr_t are converted like an integer of their size */
+	if (src->kind == TYPEPOINTER || src->kind == TYPENULLPTR)
 		src = &typeulong;
-	if (dst->kind == TYPEPOINTER)
+	if (dst->kind == TYPEPOINTER || dst->kind == TYPENULLPTR)
 		dst = &typeulong;
 	if (dst->kind == TYPEVOID)
 		return NULL;
